@@ -35,7 +35,10 @@ var nCauseOps int
 
 // hooked error kinds: errors that are neither SafeFormatter nor SafeMessager
 var hookedKinds = map[string]bool{"err": true, "perr": true, "stderr": true, "serr": true, "ierr": true, "errwrap": true, "nilerr": true,
-	"errstringer": true, "errfmter": true, "err!": true, "perr!": true, "errwrapv": true}
+	"errstringer": true, "errfmter": true, "err!": true, "perr!": true, "errwrapv": true,
+	// byte-kinded errors (alone and as the elements of a typed slice), named
+	// slice types whose nil value makes Error panic
+	"byteerr": true, "sliceerr": true, "nilsliceerr": true}
 
 type expectedCall struct {
 	kind string
@@ -86,6 +89,13 @@ func standInShape(v *Val, verb rune, dispatched bool, depth int, exp *[]expected
 	case "rv":
 		for _, s := range v.Sub {
 			c.Sub = append(c.Sub, standInShape(s, verb, dispatched && depth == 0, depth+1, exp))
+		}
+	case "berrslice":
+		// under the byte-string verbs a slice of byte-kinded elements is a
+		// byte string: its elements are not formatted one by one
+		bs := verb == 's' || verb == 'q' || verb == 'x' || verb == 'X'
+		for _, s := range v.Sub {
+			c.Sub = append(c.Sub, standInShape(s, verb, dispatched && !bs, depth+1, exp))
 		}
 	default:
 		for _, s := range v.Sub {
